@@ -196,6 +196,24 @@ pub fn draw_cfg(profile: &str, thorough: bool, rng: &mut Rng) -> RunCfg {
                 ],
             );
         }
+        "events" => {
+            for nd in nodes.iter_mut() {
+                nd.skip_gc = false;
+            }
+            gen.subdoc_pct = 0;
+            cfg.max_ops_per_txn = rng.range(1, 5) as u32;
+            pick_faults(
+                rng,
+                &mut [
+                    (&mut cfg.w_dup, 2, 12),
+                    (&mut cfg.w_drop, 2, 8),
+                    (&mut cfg.w_hold, 2, 8),
+                    (&mut cfg.w_sync, 3, 12),
+                    (&mut cfg.w_gc, 2, 8),
+                    (&mut cfg.w_partition, 1, 5),
+                ],
+            );
+        }
         "snap" => {
             // node 0 is the archivist (no GC); at least one other node collects garbage
             nodes[0].skip_gc = true;
@@ -357,10 +375,7 @@ impl World {
                     eid,
                     ev: Ev::Txn { n, origin, ops },
                 });
-                return r.map(|_| true).map_err(|mut v| {
-                    v.at_eid = eid;
-                    v
-                });
+                return self.soften(r.map(|_| ()), eid).map(|_| true);
             }
             1 => {
                 let i = self.choose_delivery(&elig);
